@@ -58,7 +58,7 @@ def showM (m : Mgr) : String :=
     String.join (m.units.map (fun u =>
       s!" U {u.gen} {u.inst.size} {u.inst.cons} {u.inst.cap} [" ++
         " ".intercalate (u.inst.abs.map (fun | some v => toString v | none => "?")) ++ "]")) ++
-    " " ++ showLife (mgrTotal m)
+    " " ++ showLife (mgrTotal m) ++ s!" T {(mgrTotal m).allocs} {(mgrTotal m).allocElems}"
 
 def parseReg : String → Option Reg
   | "A" => some .A
@@ -159,6 +159,9 @@ def step (c : Cfg) (s : St) (line : String) : St × String :=
   let ws := words line
   match ws with
   | ["reset"] => ({}, "ok")
+  | ["snap"] => (s, "ok")             -- harness-side oracle bookkeeping (resource usage snapshot)
+  | ["noalloc"] => (s, "ok")
+  | ["noalloc-total"] => (s, "ok")
   | _ =>
     match stepVec c s ws with
     | some r => r
